@@ -23,6 +23,9 @@ NARY = ["+", "-", "*", "/", "max", "min", "<", "<=", ">", ">="]
 BIN = ["mod", "expt"]
 UN = ["1+", "1-", "fround", "ftruncate"]
 
+EXPT_BIG = ["(expt %s %s)" % (b, e) for b in ["0", "1", "-1", "2", "-2", "1.0", "0.5", "10", "2.0"]
+            for e in ["4294967296", "4294967297", "4294967306", "2147483648", "2147483647", "4294967295", "8589934593", "9223372036854775807", "-4294967296", "63", "64", "1023", "1024"]]
+
 def generate(tier, seed):
     rng = C.rng_for(seed, "C13")
     exprs = []
@@ -49,6 +52,7 @@ def generate(tier, seed):
         for a, b in itertools.product(vs, repeat=2): exprs.append("(%s %s %s)" % (op, a, b))
         for bad in BAD:
             exprs.append("(%s %s 2)" % (op, bad)); exprs.append("(%s 2 %s)" % (op, bad))
+    exprs += EXPT_BIG
     for op in UN:
         for v in vals + BAD + ["2.25", "-2.75", "1e3"]: exprs.append("(%s %s)" % (op, v))
     # random integer arithmetic near the limits, nested
